@@ -122,6 +122,8 @@ def search_through(rep, c, timpl, tabx, gstar):
 
 def run(rep, rng, tier, replay=None):
     extra = [replay["chosen"]["case"]] if replay and replay.get("chosen", {}).get("case") else []
+    # corner points: one or two xi coordinates at 1e-3 .. 1e-12 (tiny kappas; condition numbers of L up to the limit the property sets)
+    extra += [SC.cornerize(rng.fork(), SC.gen_sample_case(rng.fork(), emax=6 if tier == "quick" else 7)) for _ in range(30 if tier == "quick" else 200)]
     got = SC.standard_run(rep, rng, tier, "C07", ["x_pre", "x", "utrop_pre", "vtrop_pre"], 1e-11, n_quick=70, n_thorough=500,
                           nontrivial=lambda c: len(c["edges"]) >= 3, extra_cases=extra, emax=6 if tier == "quick" else 7)
     mpmath.mp.dps = 40
